@@ -33,8 +33,8 @@ b("B01", FOREIGN, "\tlet mut ret_slate = slate.clone();\n\tcheck_ttl(w, &ret_sla
 b("B02", UPD, None, None, "rename unspent_total -> spendable_sum (whole file)")
 # 3. duplicate check of receive_tx extracted into a helper
 b("B03", FOREIGN,
-  "\t// Don't do this multiple times\n\tlet tx = updater::retrieve_txs(\n\t\t&mut *w,\n\t\tNone,\n\t\tSome(ret_slate.id),\n\t\tNone,\n\t\tSome(&parent_key_id),\n\t\tuse_test_rng,\n\t)?;\n\tfor t in &tx {\n\t\tif t.tx_type == TxLogEntryType::TxReceived {\n\t\t\treturn Err(Error::TransactionAlreadyReceived(ret_slate.id.to_string()));\n\t\t}\n\t}\n",
-  "\t// Don't do this multiple times\n\trefuse_if_already_received(&mut *w, &ret_slate, &parent_key_id, use_test_rng)?;\n",
+  "\t// Don't do this multiple times, in whichever account: whoever delivers the slate\n\t// also names the destination account\n\tlet tx = updater::retrieve_txs(&mut *w, None, Some(ret_slate.id), None, None, use_test_rng)?;\n\tfor t in &tx {\n\t\tif t.tx_type == TxLogEntryType::TxReceived {\n\t\t\treturn Err(Error::TransactionAlreadyReceived(ret_slate.id.to_string()));\n\t\t}\n\t}\n",
+  "\t// Don't do this multiple times\n\trefuse_if_already_received(&mut *w, &ret_slate, use_test_rng)?;\n",
   "duplicate check extracted into a helper (helper appended to the file)")
 # 4. cancel_tx: the two refusals swapped
 b("B04", TX,
@@ -162,6 +162,7 @@ b("B46", OWNER, "\t\t\tlet change_pending = w.iter().any(|o| {\n\t\t\t\to.root_k
 b("B47", TX, "\t\tlet parent_key_id = context.parent_key_id.clone();\n\t\tlet excess = slate.calc_excess(keychain.secp())?;", "\t\tlet parent_key_id = parent_key.clone();\n\t\tlet excess = slate.calc_excess(keychain.secp())?;", "proof key account taken from the log entry instead of the context (same account)")
 b("B48", FOREIGN, "\t\ttx::update_stored_tx(&mut *w, keychain_mask, &context, &sl, false)?;\n\t\t{\n\t\t\tlet mut batch = w.batch(keychain_mask)?;\n\t\t\tbatch.delete_private_context(sl.id.as_bytes())?;\n\t\t\tbatch.commit()?;\n\t\t}\n", "\t\ttx::update_stored_tx(&mut *w, keychain_mask, &context, &sl, false)?;\n\t\tdebug!(\"finalize_tx: stored, dropping the context of {}\", sl.id);\n\t\tlet mut batch = w.batch(keychain_mask)?;\n\t\tbatch.delete_private_context(sl.id.as_bytes())?;\n\t\tbatch.commit()?;\n", "context deletion without its own block, log line in between")
 
+b("B49", OWNER, "\tif context.late_lock_args.is_some() {\n\t\treturn Ok(());\n\t}\n", "\tif let Some(_) = context.late_lock_args {\n\t\treturn Ok(());\n\t}\n", "late-lock test written as if-let")
 
 def _apply(mu, repo_copy):
     p = os.path.join(repo_copy, mu["file"])
@@ -216,7 +217,7 @@ def _apply(mu, repo_copy):
         if bid == "B32":
             src += "\nfn store_and_forget<'a, T: ?Sized, C, K>(\n\tw: &mut T,\n\tkeychain_mask: Option<&SecretKey>,\n\tcontext: &crate::types::Context,\n\tsl: &Slate,\n) -> Result<(), Error>\nwhere\n\tT: WalletBackend<'a, C, K>,\n\tC: NodeClient + 'a,\n\tK: Keychain + 'a,\n{\n\ttx::update_stored_tx(&mut *w, keychain_mask, context, sl, false)?;\n\tlet mut batch = w.batch(keychain_mask)?;\n\tbatch.delete_private_context(sl.id.as_bytes())?;\n\tbatch.commit()?;\n\tOk(())\n}\n"
         if bid == "B03":
-            src += "\nfn refuse_if_already_received<'a, T: ?Sized, C, K>(\n\tw: &mut T,\n\tslate: &Slate,\n\tparent_key_id: &crate::grin_keychain::Identifier,\n\tuse_test_rng: bool,\n) -> Result<(), Error>\nwhere\n\tT: WalletBackend<'a, C, K>,\n\tC: NodeClient + 'a,\n\tK: Keychain + 'a,\n{\n\tlet tx = updater::retrieve_txs(\n\t\t&mut *w,\n\t\tNone,\n\t\tSome(slate.id),\n\t\tNone,\n\t\tSome(parent_key_id),\n\t\tuse_test_rng,\n\t)?;\n\tfor t in &tx {\n\t\tif t.tx_type == TxLogEntryType::TxReceived {\n\t\t\treturn Err(Error::TransactionAlreadyReceived(slate.id.to_string()));\n\t\t}\n\t}\n\tOk(())\n}\n"
+            src += "\nfn refuse_if_already_received<'a, T: ?Sized, C, K>(\n\tw: &mut T,\n\tslate: &Slate,\n\tuse_test_rng: bool,\n) -> Result<(), Error>\nwhere\n\tT: WalletBackend<'a, C, K>,\n\tC: NodeClient + 'a,\n\tK: Keychain + 'a,\n{\n\tlet tx = updater::retrieve_txs(\n\t\t&mut *w,\n\t\tNone,\n\t\tSome(slate.id),\n\t\tNone,\n\t\tNone,\n\t\tuse_test_rng,\n\t)?;\n\tfor t in &tx {\n\t\tif t.tx_type == TxLogEntryType::TxReceived {\n\t\t\treturn Err(Error::TransactionAlreadyReceived(slate.id.to_string()));\n\t\t}\n\t}\n\tOk(())\n}\n"
     open(p, "w").write(src)
     return None
 
